@@ -74,7 +74,14 @@ def gen(rng, tier):
 def corpus():
     h = gl.hx
     return ["lh file a2.16 ~ num ; L:%s C D:1 L:%s L:%s H SN" % (h("A0"), h("B1"), h("C2")),
-            "lh file b4096 s20 num ; L:%s L:%s F SN C L:%s D:0 L:%s D:1 SN" % (h("A0-xxxxxxxxxxxx"), h("B1"), h("C2"), h("D3"))]
+            "lh file b4096 s20 num ; L:%s L:%s F SN C L:%s D:0 L:%s D:1 SN" % (h("A0-xxxxxxxxxxxx"), h("B1"), h("C2"), h("D3")),
+            # flush() under contention (kind mt, the C03 machinery): while 4-6 threads keep the writer busy a further thread logs a
+            # line, calls flush() and must find the line in the file at once
+            "mt file b64 ~ num 4 200 16", "mt file b4096 ~ num 6 200 24", "mt file d ~ num 4 200 16", "mt file f64 ~ num 4 200 16"]
+
+
+def compare(body, model, impl):
+    return True if body.startswith("mt ") else model == impl      # (real interleavings: the oracle decides)
 
 
 def generate(rng, tier):
@@ -87,6 +94,8 @@ def search(rng, tier, disagreeing):
 
 
 def nontrivial(body, obs, ghost):
+    if body.startswith("mt "):
+        return True
     ops = body.split(" ; ", 1)[1].split(" ")
     for i, o in enumerate(ops):
         if o.startswith("D:") and any(x.startswith("L:") for x in ops[i:]):
@@ -96,6 +105,8 @@ def nontrivial(body, obs, ghost):
 
 def features(body, obs, ghost):
     t = body.split(" ")
+    if t[0] == "mt":
+        return ["out=" + t[1], "mode=" + t[2][0], "flush-under-contention"]
     ops = body.split(" ; ", 1)[1].split(" ")
     return ["out=" + t[1], "mode=" + t[2][0], "rotation=%d" % (t[3] != "~"), "clones=%d" % min(3, ops.count("C")),
             "end=" + ("shutdown" if "H" in ops else "drop")]
